@@ -113,6 +113,7 @@ type PathResult struct {
 	Known        map[string]*Violation
 	SampleInputs map[string]interface{}
 	SyncTrace    []string
+	Emitted      []string
 	Races        []RaceReport
 	RaceStats    RaceStats
 	RaceQueries  int64
@@ -409,6 +410,7 @@ func (p *Program) RunPath(fn *ssa.Function, prefix []Dec, solver *smt.Solver, op
 		res.RaceSolverNS = m.RaceSolverStats.SolverNS
 	}
 	res.SyncTrace = m.SyncTrace
+	res.Emitted = m.Emitted
 	res.CrossN = m.CrossN
 	m.cleanup()
 	if !solver.Dead() {
